@@ -12,6 +12,12 @@ import StarsimModel.Generated.ParsDispatch
 
 namespace StarsimModel.Pars
 
+instance instDecEqExcept {ε α} [DecidableEq ε] [DecidableEq α] : DecidableEq (Except ε α)
+  | .ok a, .ok b => if h : a = b then isTrue (by rw [h]) else isFalse (by intro h'; injection h' with h'; exact h h')
+  | .error a, .error b => if h : a = b then isTrue (by rw [h]) else isFalse (by intro h'; injection h' with h'; exact h h')
+  | .ok _, .error _ => isFalse (by intro h; cases h)
+  | .error _, .ok _ => isFalse (by intro h; cases h)
+
 /-! ## Value kinds -/
 
 /-- First parameter of an existing distribution (`old.pars[0]`) -/
@@ -241,6 +247,7 @@ def outcome (var : Variant) (o : OKind) (n : NKind) : Except Err Action :=
          | .spec => .error .value)
       else .ok .oldSetKwargs
   | .makeDist => if n = .dictTypeBad then .error .other else .ok .makeDist
+  | .moduleItem => .error .type      -- `old[key]` on a Module: modules are not subscriptable, the branch always raises
   | a => .ok a
 
 /-! ## Flat parameter sets (one `Pars` object whose values are not containers) -/
